@@ -192,8 +192,13 @@ def run_wire(pid, tier, seed, replay):
     if pid in ("C09", "C11", "C12"):
         for i, prof in enumerate(["pipeline", "unimpl", "odd", "invalid", "random"]):
             cnt = {"C09": 30, "C11": 12, "C12": 15}[pid] * n
-            jobs.append((["gen-wire", "--profile", prof, "--count", cnt, "--seed", seed * 100 + i, "--seg", segw if pid == "C09" else "single"],
+            jobs.append((["gen-wire", "--profile", prof, "--count", cnt, "--seed", seed * 100 + i, "--seg", "single"],
                          "WireTrace", "wire-%s.ndjson" % prof, "decoder streams %s" % prof, None))
+            if pid == "C09" and not quick:
+                # every pair of cut points (streams up to 160 bytes): two jobs of 15 streams per profile
+                for k in range(2):
+                    jobs.append((["gen-wire", "--profile", prof, "--count", 15, "--seed", seed * 100 + 40 + 10 * k + i, "--seg", "pairs"],
+                                 "WireTrace", "wire-pairs-%s-%d.ndjson" % (prof, k), "decoder streams %s, all pairs of cuts" % prof, None))
     if pid in ("C09", "C12", "C13", "C11"):
         profs = {"C09": ["tpipeline", "todd", "toversize", "tunimpl"], "C12": ["tpipeline", "tquit", "tunimpl", "todd"],
                  "C13": ["toversize", "tbig", "tpipeline"], "C11": ["tpipeline", "tunimpl", "toversize"]}[pid]
